@@ -764,6 +764,10 @@ fn manual_fold<H: ArchH>(unw: &H::Unw, pc: u64, regs: &RegsAny, mem: &crate::mem
                         fuel -= 1;
                         items.push("none".into());
                     }
+                    // the iterator-side loop tests the cap before it tests "nothing left to do"
+                    if fuel == 0 {
+                        items.push("cap".into());
+                    }
                     return;
                 }
                 Err(e) => {
@@ -799,10 +803,17 @@ fn manual_fold<H: ArchH>(unw: &H::Unw, pc: u64, regs: &RegsAny, mem: &crate::mem
                         fuel -= 1;
                         items.push("none".into());
                     }
+                    // the iterator-side loop tests the cap before it tests "nothing left to do"
+                    if fuel == 0 {
+                        items.push("cap".into());
+                    }
                     return;
                 }
                 Err(e) => items.push(crate::rules::show_err(&e)),
             }
+        }
+        if fuel == 0 {
+            items.push("cap".into());
         }
     });
     if r.is_err() {
@@ -854,6 +865,123 @@ fn iter_fresh<H: ArchH>(unw: &H::Unw, pc: u64, regs: &RegsAny, mem: &crate::mem:
     items.join(",")
 }
 
+/// C08 with several modules: the same modules placed in a different order and at different
+/// distances (still non-overlapping, each moved as a whole) must give the same outcome for
+/// corresponding addresses. Implementation against itself; no model involved.
+fn placement_twins<H: ArchH>(rep: &mut Report, p: &mut Prng, id: u64) {
+    let arch = H::ARCH;
+    let n_mods = 2 + p.below(4) as usize;
+    let mods_a: Vec<ModSpec> = gen_modules(p, arch, n_mods, None).into_iter().filter(|m| m.base_avma <= m.start).collect();
+    if mods_a.len() < 2 {
+        return;
+    }
+    // x86-64 rows that compute the CFA or a register from the instruction pointer (DWARF
+    // register 16) legitimately depend on where the code is mapped
+    let uses_ip = |m: &ModSpec| match &m.data {
+        DataSpec::Dwarf(_, fdes) => fdes.iter().any(|f| {
+            f.rows.iter().any(|(_, r)| {
+                matches!(r.cfa, Cfa::RegOff(DReg::Ra, _)) || r.fp == RR::Register(DReg::Ra) || r.ra == RR::Register(DReg::Ra)
+            })
+        }),
+        _ => false,
+    };
+    if arch == Arch::X64 && mods_a.iter().any(uses_ip) {
+        return;
+    }
+    // placement B: another order, packed so that small modules land between a module's base
+    // address and the start of its mapped range
+    let mut order: Vec<usize> = (0..mods_a.len()).collect();
+    for i in (1..order.len()).rev() {
+        order.swap(i, p.below(i as u64 + 1) as usize);
+    }
+    let region: u64 = *p.pick(&[0x20_0000u64, 0x7f11_0000_0000, 0x5555_0000_0000]);
+    let mut cur = region;
+    let mut mods_b: Vec<Option<ModSpec>> = vec![None; mods_a.len()];
+    for &i in &order {
+        let m = &mods_a[i];
+        let size = m.end - m.start;
+        let delta = cur.wrapping_sub(m.start);
+        let mut nm = m.clone();
+        nm.start = cur;
+        nm.end = cur + size;
+        nm.base_avma = m.base_avma.wrapping_add(delta);
+        if nm.base_avma > nm.start {
+            // moving down would wrap the base address below zero: keep this placement legal
+            return;
+        }
+        mods_b[i] = Some(nm);
+        cur += size + if p.chance(1, 2) { 0 } else { p.below(0x800) };
+    }
+    let mods_b: Vec<ModSpec> = mods_b.into_iter().map(|m| m.unwrap()).collect();
+    let mut wa: World<H> = World::new();
+    let mut wb: World<H> = World::new();
+    let mut la = vec![wa.init_line(0, cache_entry_count())];
+    let mut lb = la.clone();
+    let mut setup = |w: &mut World<H>, mods: &[ModSpec], lines: &mut Vec<String>| {
+        let mut ops = vec![Op::New { u: "u0".into() }, Op::NewCache { c: "c0".into() }];
+        for (i, m) in mods.iter().enumerate() {
+            ops.push(Op::Mod { m: format!("m{i}"), spec: m.clone() });
+            ops.push(Op::Add { u: "u0".into(), m: format!("m{i}") });
+        }
+        for o in ops {
+            lines.push(o.line(lines.len() as u64));
+            w.exec(&o);
+        }
+    };
+    setup(&mut wa, &mods_a, &mut la);
+    setup(&mut wb, &mods_b, &mut lb);
+    for _ in 0..24 {
+        let mi = p.below(mods_a.len() as u64) as usize;
+        let (ma, mb) = (&mods_a[mi], &mods_b[mi]);
+        let addrs = interesting_addrs(ma);
+        let inside: Vec<u64> = addrs.into_iter().filter(|a| *a >= ma.start && *a < ma.end).collect();
+        if inside.is_empty() {
+            continue;
+        }
+        let a = *p.pick(&inside);
+        let delta = mb.start.wrapping_sub(ma.start);
+        let b = a.wrapping_add(delta);
+        let is_ra = p.chance(1, 3) && a > ma.start;
+        let regs_a = gen_regs(p, arch, a);
+        let mem = gen_mem(p, &regs_a);
+        if mem.entries.iter().any(|(_, v)| *v == Some(a) || *v == Some(b)) {
+            continue; // a stack word equal to the code address would have to move too
+        }
+        let regs_b = match &regs_a {
+            RegsAny::X(r) => RegsAny::X(crate::rules::RegsX { ip: b, r: r.r }),
+            other => other.clone(),
+        };
+        let oa = Op::Unwind { u: "u0".into(), c: "c0".into(), is_ra, addr: a, regs: regs_a, mem: mem.clone() };
+        let ob = Op::Unwind { u: "u0".into(), c: "c0".into(), is_ra, addr: b, regs: regs_b, mem };
+        la.push(oa.line(la.len() as u64));
+        lb.push(ob.line(lb.len() as u64));
+        let (ra, _) = wa.exec(&oa);
+        let (rb, _) = wb.exec(&ob);
+        let strip = |s: &str| s.split(' ').filter(|t| !t.starts_with("stats=") && !t.starts_with("t=")).collect::<Vec<_>>().join(" ");
+        rep.count(&format!("{} multi-module placement twins", arch.name()));
+        // an unchanged instruction pointer is the (moved) input
+        // the input address itself may come back (unchanged ip, or "return address = ip" rows)
+        let norm = |s: String, x: u64| {
+            if arch == Arch::A64 {
+                return s;
+            }
+            s.split(' ')
+                .map(|t| if t == format!("ip={}", hex(x)) { "ip=<input>".to_string() } else if t == format!("frame:{}", hex(x)) { "frame:<input>".to_string() } else { t.to_string() })
+                .collect::<Vec<_>>()
+                .join(" ")
+        };
+        let na = norm(strip(&ra), a);
+        let nb = norm(strip(&rb), b);
+        if na != nb {
+            add_oracle(rep, &["C08"], "multi-module-placement-changes-outcome",
+                format!("the same modules placed differently (each moved as a whole, no overlap) give another outcome for the corresponding address; placement B:\n{}\n=> {}", lb.join("\n"), strip(&rb)),
+                la.join("\n"), &strip(&ra));
+            return;
+        }
+    }
+    let _ = id;
+}
+
 pub fn run(tier: &str, seed: u64) -> Report {
     let mut rep = Report::new("hist");
     let mut p = Prng::new(seed.wrapping_mul(0x1234_5678_9abc_def1).wrapping_add(7));
@@ -862,6 +990,13 @@ pub fn run(tier: &str, seed: u64) -> Report {
     for i in 0..n_hist {
         let arch = if i % 2 == 0 { Arch::X64 } else { Arch::A64 };
         let len = 10 + p.below(n_ops as u64) as usize;
+        if i % 16 == 9 || i % 16 == 12 {
+            match arch {
+                Arch::X64 => placement_twins::<X64H<MayAllocateDuringUnwind>>(&mut rep, &mut p, i),
+                Arch::A64 => placement_twins::<A64H<MayAllocateDuringUnwind>>(&mut rep, &mut p, i),
+            }
+            continue;
+        }
         let h = if i % 16 == 15 || i % 16 == 6 { gen_adversarial(&mut p, arch) } else { gen_history(&mut p, arch, len) };
         match arch {
             Arch::X64 => run_history::<X64H<MayAllocateDuringUnwind>>(&mut rep, &h, i, &mut gens_x),
